@@ -326,16 +326,24 @@ class MultiLink(BaseMultiLink):
 
     def __gluestate__(self, context):
         state = super(MultiLink, self).__gluestate__(context)
-        state['forwards'] = context.id(self._forwards)
-        state['backwards'] = context.id(self._backwards)
+        state['forwards'] = context.id(self.forwards)
+        state['backwards'] = context.id(self.backwards)
+        state['labels1'] = list(self.labels1)
+        state['labels2'] = list(self.labels2)
         return state
 
     @classmethod
     def __setgluestate__(cls, rec, context):
-        self = super(MultiLink, cls).__setgluestate__(rec, context)
-        self._forwards = context.object(rec['forwards'])
-        self._backwards = context.object(rec['backwards'])
-        return self
+        # The transformation functions are needed to construct the links, so
+        # they have to be passed to the initializer
+        return cls(cids1=context.object(rec['cids1']),
+                   cids2=context.object(rec['cids2']),
+                   forwards=context.object(rec['forwards']),
+                   backwards=context.object(rec['backwards']),
+                   labels1=rec.get('labels1'),
+                   labels2=rec.get('labels2'),
+                   data1=context.object(rec['data1']),
+                   data2=context.object(rec['data2']))
 
 
 class LinkSame(MultiLink):
@@ -475,6 +483,17 @@ class LinkAligned(LinkCollection):
             links.extend(LinkSame(data1.pixel_component_ids[j],
                                   data2.pixel_component_ids[j]))
         self._links[:] = links
+
+    def __gluestate__(self, context):
+        state = {}
+        state['data1'] = context.id(self.data1)
+        state['data2'] = context.id(self.data2)
+        return state
+
+    @classmethod
+    def __setgluestate__(cls, rec, context):
+        return cls(data1=context.object(rec['data1']),
+                   data2=context.object(rec['data2']))
 
 
 def functional_link_collection(function, labels1=None, labels2=None,
